@@ -294,7 +294,13 @@ theorem connect_second (E : Env) (sts : Sts) (n : Nat) (hI : InvA E sts n) (s : 
     rw [hs]; exact List.mem_map.mpr ⟨p, List.mem_reverse.mp hp, rfl⟩)]
   simp only [Bool.false_eq_true, if_false, Nat.lt_irrefl, decide_false, Bool.or_false]
   by_cases hlen : s.prev.length > 1
-  · simp only [hlen, decide_true, if_true]
+  · have hall : (s.prev.any fun u => !(other.any fun p => p.1 == u)) = false := by
+      rw [hs, List.any_eq_false]
+      intro u hu
+      obtain ⟨p, hp, rfl⟩ := List.mem_map.mp hu
+      simp only [Bool.not_eq_true, Bool.not_eq_false', List.any_eq_true]
+      exact ⟨p, hp, by simp⟩
+    simp only [hlen, decide_true, if_true, hall, Bool.false_eq_true, if_false]
     rw [addStateHistory_noop E sts n hI _ s.prev (by rw [hs]; exact hprev) (by rw [hs]; exact hhist)]
     rfl
   · simp only [hlen, decide_false, Bool.false_eq_true, if_false]
